@@ -3,7 +3,13 @@ import json
 import os
 from collections import defaultdict
 
+import copy
+
 from .extract import CheckError
+
+KNOWN_FNS = os.path.join(os.path.dirname(os.path.dirname(os.path.abspath(__file__))), "rules", "tables", "known_fns.json")
+TERMS_WITH_T = ("goto", "call", "drop", "assert")
+MAX_INLINE_BLOCKS = 6000
 
 
 class Facts:
@@ -46,13 +52,37 @@ class Facts:
                         self.crates[o["name"]] = o
             self.crates.setdefault(c, {})["fn_count"] = n
         self._bodies = {}
+        self._raw_bodies = {}
         self._callers = None
+        self._eff = {}
+        # functions that did not exist when the rules were reviewed are TRANSPARENT: they are inlined into their callers, so that extracting a
+        # helper / splitting a function does not move a rule's sites out of the function the rule is anchored in
+        self.new_fns = set()
+        if os.environ.get("QV_NO_INLINE") != "1" and os.path.exists(KNOWN_FNS):
+            known = set(json.load(open(KNOWN_FNS))["fns"])
+            self.new_fns = {k for k, f in self.fns.items() if f.get("mir") and k.split("::{closure")[0] not in known and not f.get("derived")}
+        self.absorbed = set()
+        if self.new_fns:
+            called = set()
+            for key, f in self.fns.items():
+                mir = f.get("mir")
+                if not mir:
+                    continue
+                for b in mir["blocks"]:
+                    t = b["term"]
+                    if t["k"] == "call" and not b.get("cleanup"):
+                        for c in (t.get("callee"), t.get("resolved")):
+                            if c in self.new_fns and c != key:
+                                called.add(c)
+            self.absorbed = {k for k in self.new_fns if k.split("::{closure")[0] in called}
 
     # ------------------------------------------------------------------ lookup
     def fn(self, key, required=True):
         f = self.fns.get(key)
         if f is None and required:
             raise CheckError("anchor function not found: %s" % key)
+        if f is not None and self.new_fns and key not in self.new_fns:
+            return self.effective_fn(key)
         return f
 
     def adt(self, key, required=True):
@@ -61,15 +91,80 @@ class Facts:
             raise CheckError("anchor type not found: %s" % key)
         return a
 
+    def raw_mode(self):
+        """context manager: bodies as written (no transparent inlining) — for censuses that count syntactic sites and reconcile moved ones."""
+        F = self
+
+        class _Raw:
+            def __enter__(self_):
+                self_.saved = (F.new_fns, F.absorbed, F._bodies, F._callers)
+                F.new_fns, F.absorbed, F._bodies, F._callers = set(), set(), F._raw_bodies, None
+                return F
+
+            def __exit__(self_, *a):
+                F._raw_bodies = F._bodies
+                F.new_fns, F.absorbed, F._bodies, F._callers = self_.saved
+                return False
+        return _Raw()
+
     def body(self, key):
         b = self._bodies.get(key)
         if b is None:
-            f = self.fn(key)
+            f = self.effective_fn(key)
             if not f.get("mir"):
                 raise CheckError("no MIR for %s" % key)
             b = Body(f)
             self._bodies[key] = b
         return b
+
+    def effective_fn(self, key):
+        """the fn fact with every call to a transparent (new) function inlined into its MIR."""
+        f = self.fns.get(key)
+        if f is None:
+            raise CheckError("anchor function not found: %s" % key)
+        if not self.new_fns:
+            return f
+        e = self._eff.get(key)
+        if e is None:
+            e = f
+            if f.get("mir"):
+                mir = inline_new(self, f)
+                if mir is not None:
+                    e = dict(e, mir=mir, inlined=True)
+            if f.get("hir") and self.transparent_callees(key):
+                from . import hir as _hir
+                e = dict(e, hir=dict(f["hir"], body=_hir.splice(self, f["hir"]["body"])), inlined=True)
+            self._eff[key] = e
+        return e
+
+    def body_with(self, key, inline):
+        """the body of `key` with the named workspace callees (and every transparent new function) inlined — for rules that follow a value across
+        one specific call boundary."""
+        f = self.fns.get(key)
+        if f is None or not f.get("mir"):
+            raise CheckError("anchor function not found: %s" % key)
+        mir = inline_new(self, f, set(self.new_fns) | set(inline))
+        return Body(f if mir is None else dict(f, mir=mir, inlined=True))
+
+    def transparent_callees(self, key):
+        """new functions reachable from `key` through calls that are inlined (for HIR-level rules: their bodies count as part of `key`)."""
+        out = []
+        work = [key]
+        seen = {key}
+        while work:
+            k = work.pop()
+            f = self.fns.get(k)
+            if not f or not f.get("mir"):
+                continue
+            for b in f["mir"]["blocks"]:
+                t = b["term"]
+                if t["k"] == "call" and not b.get("cleanup"):
+                    for c in (t.get("callee"), t.get("resolved")):
+                        if c in self.new_fns and c not in seen:
+                            seen.add(c)
+                            out.append(c)
+                            work.append(c)
+        return out
 
     def bodies(self, crate=None, pred=None):
         for key, f in self.fns.items():
@@ -77,6 +172,8 @@ class Facts:
                 continue
             if not f.get("mir"):
                 continue
+            if key in self.absorbed:
+                continue      # its sites are analysed inside its callers
             if pred and not pred(f):
                 continue
             yield self.body(key)
@@ -85,7 +182,11 @@ class Facts:
         return [k for k in self.fns if k.startswith(prefix)]
 
     def closures_of(self, key):
-        return [k for k in self.fns if k.startswith(key + "::{closure")]
+        out = [k for k in self.fns if k.startswith(key + "::{closure")]
+        for g in (self.transparent_callees(key) if self.new_fns else ()):
+            if "::{closure" not in g:
+                out += [k for k in self.fns if k.startswith(g + "::{closure")]
+        return out
 
     def with_closures(self, key):
         return [key] + self.closures_of(key)
@@ -106,9 +207,9 @@ class Facts:
         if self._callers is None:
             cs = defaultdict(list)
             for key, f in self.fns.items():
-                mir = f.get("mir")
-                if not mir:
+                if not f.get("mir") or key in self.absorbed:
                     continue
+                mir = self.effective_fn(key)["mir"]
                 for bi, b in enumerate(mir["blocks"]):
                     if b.get("cleanup"):
                         continue
@@ -141,7 +242,98 @@ class Facts:
             for callee in mir_refs(mir, follow_fnptr):
                 if callee in self.fns and callee not in seen:
                     work.append(callee)
-        return seen
+        return seen - self.absorbed if self.absorbed else seen
+
+
+def _renum(o, loff, boff, poff):
+    """deep copy of a MIR JSON fragment with locals, blocks and promoted indices shifted."""
+    if isinstance(o, dict):
+        if "l" in o and "pr" in o and isinstance(o["l"], int):
+            pr = []
+            for e in o["pr"]:
+                if isinstance(e, list) and e and e[0] == "i":
+                    pr.append(["i", e[1] + loff])
+                else:
+                    pr.append(copy.deepcopy(e))
+            out = {"l": o["l"] + loff, "pr": pr}
+            for k, v in o.items():
+                if k not in ("l", "pr"):
+                    out[k] = _renum(v, loff, boff, poff)
+            return out
+        out = {}
+        k_ = o.get("k")
+        for k, v in o.items():
+            if k == "t" and k_ in TERMS_WITH_T and isinstance(v, int):
+                out[k] = v + boff
+            elif k == "targets" and k_ == "switch":
+                out[k] = [[val, bb + boff] for val, bb in v]
+            elif k == "otherwise" and k_ == "switch":
+                out[k] = v + boff
+            elif k == "promoted" and isinstance(v, int) and o.get("c") == "const":
+                out[k] = v + poff
+            else:
+                out[k] = _renum(v, loff, boff, poff)
+        return out
+    if isinstance(o, list):
+        return [_renum(v, loff, boff, poff) for v in o]
+    return o
+
+
+def inline_new(F, f, transparent=None):
+    """MIR of `f` with calls to transparent functions spliced in (None when there is nothing to inline)."""
+    mir = f["mir"]
+    NEW = F.new_fns if transparent is None else transparent
+    if not any(b["term"]["k"] == "call" and not b.get("cleanup") and ((b["term"].get("callee") in NEW) or (b["term"].get("resolved") in NEW))
+               for b in mir["blocks"]):
+        return None
+    mir = copy.deepcopy(mir)
+    mir.setdefault("promoted", [])
+    chain = {}     # block index -> tuple of callee keys on the inlining chain that produced it
+    changed = True
+    while changed and len(mir["blocks"]) < MAX_INLINE_BLOCKS:
+        changed = False
+        for bi in range(len(mir["blocks"])):
+            b = mir["blocks"][bi]
+            t = b["term"]
+            if t["k"] != "call" or b.get("cleanup"):
+                continue
+            g = t.get("callee") if t.get("callee") in NEW else (t.get("resolved") if t.get("resolved") in NEW else None)
+            if g is None or g == f["key"] or g in chain.get(bi, ()) or len(chain.get(bi, ())) >= 5:
+                continue
+            gf = F.fns[g]
+            gm = gf.get("mir")
+            if not gm or len(t["args"]) != gm["argc"]:
+                continue
+            loff = len(mir["locals"])
+            boff = len(mir["blocks"])
+            poff = len(mir["promoted"])
+            for l in gm["locals"]:
+                nl = dict(l)
+                nl["i"] = l["i"] + loff
+                nl["inl"] = g
+                if l["i"] == 0:
+                    nl["inl_ret"] = True
+                if 0 < l["i"] <= gm["argc"]:
+                    nl["name"] = None      # a parameter of an inlined helper is a plain copy of the argument, not a variable of its own
+                mir["locals"].append(nl)
+            mir["promoted"] += copy.deepcopy(gm.get("promoted") or [])
+            sp = t.get("sp")
+            for j, a in enumerate(t["args"]):
+                b["stmts"].append({"k": "assign", "p": {"l": loff + 1 + j, "pr": []}, "rv": {"k": "use", "op": a}, "sp": sp, "inl_arg": g})
+            dest, tgt = t["dest"], t.get("t")
+            b["term"] = {"k": "goto", "t": boff, "sp": sp, "inl_call": g}
+            for gb in gm["blocks"]:
+                nb = _renum(gb, loff, boff, poff)
+                nb["file"] = gf["file"]
+                nb["inl"] = g
+                if nb["term"]["k"] == "return" and not nb.get("cleanup"):
+                    nb["stmts"].append({"k": "assign", "p": copy.deepcopy(dest), "rv": {"k": "use", "op": {"c": "move", "p": {"l": loff, "pr": []}}},
+                                        "sp": nb["term"].get("sp"), "inl_ret": g})
+                    nb["term"] = {"k": "goto", "t": tgt, "sp": nb["term"].get("sp")} if tgt is not None else {"k": "unreachable"}
+                chain[len(mir["blocks"])] = chain.get(bi, ()) + (g,)
+                mir["blocks"].append(nb)
+            changed = True
+    return mir
 
 
 def mir_refs(mir, follow_fnptr=True):
@@ -300,7 +492,7 @@ class Body:
             if sp is None and b["stmts"]:
                 sp = b["stmts"][-1].get("sp")
         line = sp[0] if sp else self.fn["line"]
-        return "%s:%d" % (self.file, line)
+        return "%s:%d" % (b.get("file") or self.file, line)
 
     # --- enumeration
     def calls(self, pred=None):
